@@ -5776,6 +5776,11 @@ def merge_parts(parts, reassign="voice"):
 def _fill_rests_within_measure(measure: Measure, part: Part) -> None:
     start_time = measure.start.t
     end_time = measure.end.t
+
+    def divs_at(t):
+        # the quarter duration in force where a rest starts
+        return int(part.quarter_duration_map(t))
+
     notes = np.array(
         list(part.iter_all(GenericNote, start_time, end_time, include_subclasses=True))
     )
@@ -5791,14 +5796,14 @@ def _fill_rests_within_measure(measure: Measure, part: Part) -> None:
                 # solution when estimation returns composite durations.
                 sym_dur = estimate_symbolic_duration(
                     end_time - start_time,
-                    part._quarter_durations[0],
+                    divs_at(start_time),
                     return_com_durations=True,
                 )
                 if isinstance(sym_dur, tuple):
                     st = start_time
                     for i, sd in enumerate(sym_dur):
                         et = start_time + symbolic_to_numeric_duration(
-                            sd, part._quarter_durations[0]
+                            sd, divs_at(start_time)
                         )
                         rest = Rest(
                             symbolic_duration=sd, staff=staff, voice=un_voice.max() + 1
@@ -5823,7 +5828,7 @@ def _fill_rests_within_measure(measure: Measure, part: Part) -> None:
         if min_start_note.start.t > start_time:
             sym_dur = estimate_symbolic_duration(
                 min_start_note.start.t - start_time,
-                part._quarter_durations[0],
+                divs_at(start_time),
                 return_com_durations=True,
             )
             # solution when estimation returns composite durations.
@@ -5831,7 +5836,7 @@ def _fill_rests_within_measure(measure: Measure, part: Part) -> None:
                 st = start_time
                 for i, sd in enumerate(sym_dur):
                     et = st + symbolic_to_numeric_duration(
-                        sd, part._quarter_durations[0]
+                        sd, divs_at(start_time)
                     )
                     rest = Rest(
                         symbolic_duration=sd,
@@ -5853,7 +5858,7 @@ def _fill_rests_within_measure(measure: Measure, part: Part) -> None:
         if min_end_note.end.t < end_time:
             sym_dur = estimate_symbolic_duration(
                 end_time - min_end_note.end.t,
-                part._quarter_durations[0],
+                divs_at(min_end_note.end.t),
                 return_com_durations=True,
             )
             # solution when estimation returns composite durations.
@@ -5861,7 +5866,7 @@ def _fill_rests_within_measure(measure: Measure, part: Part) -> None:
                 st = min_end_note.end.t
                 for i, sd in enumerate(sym_dur):
                     et = st + symbolic_to_numeric_duration(
-                        sd, part._quarter_durations[0]
+                        sd, divs_at(min_end_note.end.t)
                     )
                     rest = Rest(
                         symbolic_duration=sd,
@@ -5889,14 +5894,15 @@ def _fill_rests_within_measure(measure: Measure, part: Part) -> None:
                 sym_dur = estimate_symbolic_duration(
                     notes_per_vocstaff[sort_note_start[i]].start.t
                     - notes_per_vocstaff[sort_note_end[i - 1]].end.t,
-                    part._quarter_durations[0],
+                    divs_at(notes_per_vocstaff[sort_note_end[i - 1]].end.t),
                     return_com_durations=True,
                 )
                 if isinstance(sym_dur, tuple):
                     st = notes_per_vocstaff[sort_note_end[i - 1]].end.t
+                    gap_start = st
                     for i, sd in enumerate(sym_dur):
                         et = st + symbolic_to_numeric_duration(
-                            sd, part._quarter_durations[0]
+                            sd, divs_at(gap_start)
                         )
                         rest = Rest(
                             symbolic_duration=sd,
@@ -5925,6 +5931,11 @@ def _fill_rests_global(
     end_time = measure.end.t
     if end_time - start_time == 0:
         return
+
+    def divs_at(t):
+        # the quarter duration in force where a rest starts
+        return int(part.quarter_duration_map(t))
+
     notes = np.array(
         list(part.iter_all(GenericNote, start_time, end_time, include_subclasses=True))
     )
@@ -5939,7 +5950,7 @@ def _fill_rests_global(
         ]
         if min_start_note.start.t > start_time:
             sym_dur = estimate_symbolic_duration(
-                min_start_note.start.t - start_time, part._quarter_durations[0]
+                min_start_note.start.t - start_time, divs_at(start_time)
             )
             rest = Rest(
                 symbolic_duration=sym_dur,
@@ -5953,7 +5964,7 @@ def _fill_rests_global(
         ]
         if min_end_note.end.t < end_time:
             sym_dur = estimate_symbolic_duration(
-                end_time - min_end_note.end.t, part._quarter_durations[0]
+                end_time - min_end_note.end.t, divs_at(min_end_note.end.t)
             )
             rest = Rest(
                 symbolic_duration=sym_dur,
@@ -5975,7 +5986,7 @@ def _fill_rests_global(
             diff = np.setdiff1d(y_sa, x_sa)
         for voice, staff in diff:
             sym_dur = estimate_symbolic_duration(
-                end_time - start_time, part._quarter_durations[0]
+                end_time - start_time, divs_at(start_time)
             )
             rest = Rest(symbolic_duration=sym_dur, staff=staff, voice=voice)
             part.add(rest, start_time, end_time)
